@@ -3,16 +3,33 @@ Case grammar:  root|both  a b acc  fam np p1..pnp  <fexpr>        (both: Find_Ro
                seq k  (a b acc fam np p1..pnp <fexpr>) x k          (k requests served one after the other by one process; tags meta-fscale / meta-xscale:
                                                                      the later requests are images of the first under scaling of f / of the unit of x)
 Output per call: result, warning flag, number of evaluations, the abscissae in call order; EXIT when the process is terminated."""
-import math
+import math, os
 from fractions import Fraction
+import vbuild
 from vcheck import Case, hx, tokf
+
+COQ = os.path.join(vbuild.VERIF, "coq")
+
+
+def regenerate():
+    """T-tie: Sign(double) and Sign(double,double) of src/Special_Functions.cpp are translated from clang's AST into
+    coq/Gen_C02_Formulas.v on every run; coq/C02_GenTie.v proves them equal to the terms sign1 / sign2 the model is written with."""
+    import cxx2gallina as c
+    try:
+        txt = c.translate_all(os.path.join(vbuild.REPO, "src", "Special_Functions.cpp"),
+                              [c.Fn("Sign", ["double"], "g_Sign"), c.Fn("Sign", ["double", "double"], "g_Sign2")],
+                              [os.path.join(vbuild.REPO, "include")])
+    except c.Unsupported as e:
+        raise RuntimeError(f"tools/cxx2gallina.py cannot translate Sign of src/Special_Functions.cpp: {e}")
+    ch = c.write_if_changed(os.path.join(COQ, "Gen_C02_Formulas.v"), txt)
+    return "Gen_C02_Formulas.v regenerated from the current source" if ch else ""
 
 PID = "C02"
 EPS = 2.0 ** -53
 RULE = ("one case = one call Find_Root(f,a,b,acc) (op both: the two orders of the bracket ends; op seq: a history of 2-5 requests served by one "
         "process — repeated, interleaved, narrowed requests, and pairs (request, the same with the function multiplied by +-2^j or with x in units of 2^-j) — judged by its first request); non-trivial = at least 3 Ridder "
         "iterations with at least 2 different re-bracketing cases taken (deduced from the evaluation trace: the next midpoint "
-        "identifies which of the three re-bracketing branches ran); distinct by case text")
+        "identifies which of the three re-bracketing branches ran); ops sgn / sgn2 = one call of Sign(x) / Sign(x,y), non-trivial when an argument is 0 or NaN or the two differ in sign; distinct by case text")
 LEVEL_TEXT = ("Theorems (Coq, over the reals, for an arbitrary objective function f unless stated): the result does not depend on the order of "
               "the bracket ends; the loop invariant (f1*f2<0, bracket inside the original one, each new bracket inside the previous and at "
               "most half as wide, midpoint and Ridder point inside the closed bracket); every evaluation abscissa lies in [min(a,b),max(a,b)]; "
@@ -28,7 +45,7 @@ LEVEL_TEXT = ("Theorems (Coq, over the reals, for an arbitrary objective functio
               "NO ANSWER WITHOUT A RIDDER PASS, ON EVERY INSTANCE (C02_first_pass_always_runs, C02_pass_shape_any_instance; no law of arithmetic, so doubles included): a request with opposite signs at the ends and no NaN "
               "there is never answered from the ends alone, whatever the accuracy (the width of the bracket and beyond included): the trace begins xl, xr, midpoint, Ridder's point of the original bracket, and when nothing "
               "else is evaluated the answer is that Ridder point - which over the reals is the root of a linear function (C02_linear_exact, every accuracy). "
-              "TERMINATION AND SHAPE ON EVERY INSTANCE (C02_trace_shape_any_instance, C02_evaluation_budget_any_instance; induction over the iteration budget, no law of arithmetic or order, so doubles with rounding, infinities and NaNs included): every run evaluates the two ends and then nothing (exit / zero end), or two abscissae per pass for k passes, 1 <= k <= 2200, ending with an exit or returning the abscissa of the LAST evaluation, or 2*2200+1 more with the answer evaluated twice at the end (iteration limit); never more than 4403 evaluations, never an OOB/Fuel outcome, and every number returned is an abscissa at which f was evaluated (S4 predicate trace-shape evaluates this on the implementation). ALL PASSES INSIDE THE BRACKET ON EVERY ORDERED INSTANCE, PARTIAL (C02_evaluations_inside_ordered_partial; order laws plus the single premise mid_between: 0.5x+0.5y lies between x and y — proved for the reals, C02_midpoint_between_reals, NOT proved for doubles): every evaluation of every pass and the returned number lie in [xl,xr], whatever rounding does to Ridder's formula. STOPPING TEST / ACCURACY ON EVERY INSTANCE (C02_stopping_test_any_instance, no law of arithmetic or order, doubles included; C02_stopping_test_reals): a number returned through f4 == 0 has computed value == 0; a number returned through the width test is an end of a pair (u,v) of abscissae evaluated in this call whose values pass the code's sign test (both non-zero, different sign) and whose computed distance fabs(v-u) is < xAccuracy — the accuracy clause for doubles up to the one rounding of v-u and the trusted evaluation of f (S4 predicate stop-pair evaluates it on the implementation). ORDER OF THE ENDS ON EVERY ORDERED INSTANCE, PARTIAL (C02_order_irrelevant_ordered_partial): same outcome and trace for ends the order tells apart; +0/-0 ends (equal, not identical) are not covered. HISTORIES OVER THE REALS (C02_history_all_answers_correct): every answer of every history satisfies C02_outcomes and the location clause for the request at its position. MONOTONE FUNCTIONS (C02_monotone_every_root_close, reals, no continuity): for a strictly increasing or decreasing f EVERY zero of f is the answer or within acc of it (2^-2200 of the width after an iteration-limit return), i.e. the answer is within acc of THE root. HISTORIES, CONVERSE (C02_history_entries, every instance, induction over the history): every entry of the answers is the answer to the request at the same position served alone, all earlier ones returned numbers, and there are no more answers than requests. Not theorems: statements about IEEE rounding (the midpoint of a pass being inside the bracket on doubles is tested, not proved — it is now the ONLY arithmetic premise of the all-passes-inside statement; the cost bound on doubles is tested with 0.9 acc for acc, "
+              "TERMINATION AND SHAPE ON EVERY INSTANCE (C02_trace_shape_any_instance, C02_evaluation_budget_any_instance; induction over the iteration budget, no law of arithmetic or order, so doubles with rounding, infinities and NaNs included): every run evaluates the two ends and then nothing (exit / zero end), or two abscissae per pass for k passes, 1 <= k <= 2200, ending with an exit or returning the abscissa of the LAST evaluation, or 2*2200+1 more with the answer evaluated twice at the end (iteration limit); never more than 4403 evaluations, never an OOB/Fuel outcome, and every number returned is an abscissa at which f was evaluated (S4 predicate trace-shape evaluates this on the implementation). ALL PASSES INSIDE THE BRACKET ON EVERY ORDERED INSTANCE, PARTIAL (C02_evaluations_inside_ordered_partial; order laws plus the single premise mid_between: 0.5x+0.5y lies between x and y — proved for the reals, C02_midpoint_between_reals, NOT proved for doubles): every evaluation of every pass and the returned number lie in [xl,xr], whatever rounding does to Ridder's formula. STOPPING TEST / ACCURACY ON EVERY INSTANCE (C02_stopping_test_any_instance, no law of arithmetic or order, doubles included; C02_stopping_test_reals): a number returned through f4 == 0 has computed value == 0; a number returned through the width test is an end of a pair (u,v) of abscissae evaluated in this call whose values pass the code's sign test (both non-zero, different sign) and whose computed distance fabs(v-u) is < xAccuracy — the accuracy clause for doubles up to the one rounding of v-u and the trusted evaluation of f (S4 predicate stop-pair evaluates it on the implementation). ORDER OF THE ENDS ON EVERY ORDERED INSTANCE, PARTIAL (C02_order_irrelevant_ordered_partial): same outcome and trace for ends the order tells apart; +0/-0 ends (equal, not identical) are not covered. HISTORIES OVER THE REALS (C02_history_all_answers_correct): every answer of every history satisfies C02_outcomes and the location clause for the request at its position. MONOTONE FUNCTIONS (C02_monotone_every_root_close, reals, no continuity): for a strictly increasing or decreasing f EVERY zero of f is the answer or within acc of it (2^-2200 of the width after an iteration-limit return), i.e. the answer is within acc of THE root. HISTORIES, CONVERSE (C02_history_entries, every instance, induction over the history): every entry of the answers is the answer to the request at the same position served alone, all earlier ones returned numbers, and there are no more answers than requests. SHARPER ACCURACY CONTINUES THE SAME RUN (C02_sharper_accuracy_continues, every instance, no law of arithmetic or order, induction over the iteration budget; C02_sharper_accuracy_continues_ordered with the premise acc' <= acc): the request at an accuracy acc' at most acc is answered exactly as at acc, or the run at acc returned through the width test and the run at acc' makes the same evaluations in the same order and then more (S4 predicate accuracy-prefix evaluates it on histories that ask one request at 2-5 accuracies). ORIGIN OF x (C02_x_shift_covariant, reals): f(x-c) on [a+c,b+c] is answered by the answer + c through every abscissa + c; with the unit covariance Find_Root commutes with every increasing affine change of the variable. T-TIE (C02_generated_Sign_is_model, C02_generated_Sign2_is_model): Sign(double) and Sign(double,double), regenerated from src/Special_Functions.cpp on every run, are the terms sign1/sign2 the model of Find_Root is written with, on every instance where the literals 0.0 and 1.0 are the constants 0 and 1 (reals: C02_literals_reals); both are also run against the library directly (ops sgn, sgn2: all pairs of special values, NaN, infinities, +-0, subnormals included). Not theorems: statements about IEEE rounding (the midpoint of a pass being inside the bracket on doubles is tested, not proved — it is now the ONLY arithmetic premise of the all-passes-inside statement; the cost bound on doubles is tested with 0.9 acc for acc, "
               "for accuracies of at least 40 spacings of doubles; the two scaling relations are tested on doubles with powers of two, where they are exact, on the values actually met; the stopping test is "
               "aimed at from both sides — accuracy on a ladder of ulps and relative distances around the width of a pre-computed intermediate bracket, step-like atan/tanh/erf transitions down to "
               "1e-20 spacings wide placed at the far end of that bracket, all scales; "
@@ -37,7 +54,7 @@ LEVEL_TEXT = ("Theorems (Coq, over the reals, for an arbitrary objective functio
               "the implementation's output (S4).")
 LEVEL_NOTE = ("Coq 8.16.1 kernel; standard-library real-number axioms (listed in the evidence); nan_end_exits is axiom-free. Hand-written model tied by "
               "differential correspondence (extraction with ExtrOcamlBasic only); Sign(double)/Sign(double,double) are Num.v's sign1/sign2; "
-              "std::isnan is the abstract predicate nisnan (constantly false on R).")
+              "std::isnan is the abstract predicate nisnan (constantly false on R). Sign/Sign(x,y) are additionally T-tied: coq/Gen_C02_Formulas.v is regenerated from the source by tools/cxx2gallina.py on every run and coq/C02_GenTie.v proves it equal to sign1/sign2 under the literal law Lit01 (0.0 = n0, 1.0 = n1; proved for the reals, for doubles a fact about two exactly representable literals checked by the ops sgn/sgn2). coverage/C02.md lists what is modelled line by line, by specification, or not at all.")
 TOL = (1e-12, 1e-300)
 TRUSTED = ["the objective functions are prefix expressions evaluated by harness/common.hpp and ocaml/common.ml with the same libm; S4 re-evaluates them in Python (math module = the same libm)",
            "the maximum-iteration return is observed as the text 'Iterations exceed the maximum' on the library's stdout"]
@@ -934,6 +951,54 @@ def gen_top_edge(rng, n):
     return cs
 
 
+SGN_SPECIAL = [0.0, -0.0, 5e-324, -5e-324, 2.2250738585072014e-308, -2.2250738585072014e-308, 1.0, -1.0, 1e-300, -1e-300, 1e300, -1e300,
+               1.7976931348623157e308, -1.7976931348623157e308, math.inf, -math.inf, math.nan]
+
+
+def gen_sign(rng, n):
+    """seventh pass: Sign(double) and Sign(double,double) themselves (the end test, Ridder's formula and the three re-bracketing tests of
+    Find_Root are written with them): every pair of special values, and random magnitudes over the whole double range"""
+    cs = []
+    for x in SGN_SPECIAL:
+        cs.append(Case(f"sgn {hx(x)}", ("sgn", "sign-special")))
+        for y in SGN_SPECIAL:
+            cs.append(Case(f"sgn2 {hx(x)} {hx(y)}", ("sgn2", "sign-special")))
+    def rv():
+        r = rng.random()
+        if r < 0.15: return rng.choice(SGN_SPECIAL)
+        return rng.choice([-1, 1]) * rng.uniform(1, 10) * 10.0 ** rng.randint(-320, 307)
+    for _ in range(n):
+        cs.append(Case(f"sgn {hx(rv())}", ("sgn",)))
+        cs.append(Case(f"sgn2 {hx(rv())} {hx(rv())}", ("sgn2",)))
+    return cs
+
+
+def gen_acc_ladder(rng, n):
+    """seventh pass: one request at 2-4 accuracies in one history, in any order (C02_sharper_accuracy_continues: the evaluations at the
+    coarser accuracy are the first evaluations at the sharper one)"""
+    cs = []
+    fams = [fam_powlaw, fam_poly, fam_saturating, fam_pwl, fam_misc, fam_decades]
+    for _ in range(n):
+        a, b, root, name, params, fx = rng.choice(fams)(rng)
+        if not (a < b) or not all(math.isfinite(v) for v in [a, b] + list(params)): continue
+        f, _ = parse_fexpr(fx.split(), 0)
+        if classify(f, a, b)[0] != "opp": continue
+        w = b - a
+        floor_ = max(1e-14 * abs(root), 5e-324) if root != 0 else max(1e-14 * w, 5e-324)
+        if not (floor_ < w) or w == math.inf: continue
+        accs = [w] if rng.random() < 0.3 else []
+        while len(accs) < rng.randint(2, 4):
+            accs.append(math.exp(rng.uniform(math.log(floor_), math.log(w))))
+        if rng.random() < 0.3: accs.append(floor_)
+        rng.shuffle(accs)
+        reqs = []
+        for acc in accs:
+            x, y = (a, b) if rng.random() < 0.7 else (b, a)
+            reqs.append(req_text(x, y, acc, name, params, fx))
+        cs.append(Case(f"seq {len(reqs)} " + " ".join(reqs), ("seq", "acc-ladder")))
+    return cs
+
+
 def generate(rng, tier):
     cs = []
     big = tier != "quick"
@@ -1027,6 +1092,9 @@ def generate(rng, tier):
     cs += gen_metamorphic(rng, 4000 if big else 240)
     # sixth pass: accuracies at the top of the range (the width of the bracket and its neighbourhood), linear functions in every form and scale
     cs += gen_top_edge(rng, 8000 if big else 500)
+    # seventh pass: Sign / Sign(x,y) directly; one request at several accuracies
+    cs += gen_sign(rng, 5000 if big else 150)
+    cs += gen_acc_ladder(rng, 3000 if big else 90)
     return cs
 
 
@@ -1191,9 +1259,46 @@ def check_metamorphic(c, reqs, calls):
     return out
 
 
+def check_sign(c, io):
+    """Sign(x) is 1 / 0 / -1 for x > 0 / x == 0 / otherwise; Sign(x,y) is x when Sign(x) == Sign(y) and -x otherwise, exactly"""
+    t = c.line.split(); o = io.split()
+    def s1(v): return 1 if v > 0.0 else (0 if v == 0.0 else -1)
+    if len(o) != 1: return [(t[0] + ":output", "unexpected output shape")]
+    if t[0] == "sgn":
+        x = tokf(t[1])
+        if o[0] != str(s1(x)): return [("sgn:value", f"Sign({x!r}) = {o[0]}, not {s1(x)}")]
+        return []
+    x, y = tokf(t[1]), tokf(t[2]); want = x if s1(x) == s1(y) else -1.0 * x
+    got = tokf(o[0])
+    if not (hx(got) == hx(want) or (got != got and want != want)):
+        return [("sgn2:value", f"Sign({x!r},{y!r}) = {got!r}, not {want!r}")]
+    return []
+
+
+def check_acc_prefix(reqs, calls):
+    """C02_sharper_accuracy_continues on the implementation: two requests of a history with the same function and bracket, accuracies
+    acc' <= acc: the evaluations for acc are the first evaluations for acc', and with equally many evaluations the answers are the same"""
+    out = []
+    for j in range(len(reqs)):
+        for k in range(len(reqs)):
+            if j == k: continue
+            aj, bj, accj, _, _, _, fxj, _ = reqs[j]; ak, bk, acck, _, _, _, fxk, _ = reqs[k]
+            if not (accj == accj and acck == acck and acck <= accj): continue
+            if (hx(min(aj, bj)), hx(max(aj, bj)), fxj) != (hx(min(ak, bk)), hx(max(ak, bk)), fxk) or aj != aj or bj != bj: continue
+            if hx(min(aj, bj)) == hx(max(aj, bj)) and min(aj, bj) == 0.0 and (hx(aj), hx(bj)) != (hx(ak), hx(bk)): continue   # +0 / -0 ends are not swapped
+            (xj, wj, nj, tj), (xk, wk, nk, tk) = calls[j], calls[k]
+            hj, hk = [hx(u) for u in tj], [hx(u) for u in tk]
+            if hk[:len(hj)] != hj or (nk == nj and (hx(xk) != hx(xj) or wk != wj)):
+                out.append(("seq:accuracy-prefix", f"request {k + 1} (accuracy {acck!r}, {nk} evaluations, answer {xk!r}) does not continue the run of request {j + 1} "
+                                                   f"(same function and bracket, accuracy {accj!r}, {nj} evaluations, answer {xj!r})"))
+                return out
+    return out
+
+
 def predicates(c, io):
     out = []
     if io.startswith(("CRASH", "SANITIZER", "TIMEOUT", "HARNESSERR")): return out
+    if c.line.startswith("sgn"): return check_sign(c, io)
     op, reqs = parse_case(c.line)
     exited = io.startswith("EXIT")
     classes = []
@@ -1232,12 +1337,16 @@ def predicates(c, io):
             seen.setdefault(key, (k, sig))
             out += check_returned(op, rq, [cl])
         out += check_metamorphic(c, reqs, calls)
+        out += check_acc_prefix(reqs, calls)
         return out
     return out + check_returned(op, reqs[0], calls)
 
 
 def nontrivial(c, io):
     if io.startswith(("EXIT", "CRASH")): return False
+    if c.line.startswith("sgn"):        # the Sign helpers: non-trivial = the arguments differ in sign class (the branch Find_Root re-brackets on) or one is 0 / NaN
+        v = [tokf(x) for x in c.line.split()[1:]]
+        return len(v) == 2 and (any(u != u or u == 0.0 for u in v) or (v[0] > 0) != (v[1] > 0))
     op, reqs = parse_case(c.line)
     calls = split_out(io, ncalls_of(op, reqs))
     if not calls: return False
